@@ -45,7 +45,7 @@ pub fn op_schema(job: &J) -> Result<J, String> {
             Err(AddError::Parse(e)) => return Ok(json!({"rejected": "parse", "detail": e})),
             Err(AddError::Type(v, d)) => {
                 let mut d = d;
-                d.truncate(800);
+                crate::util::trunc(&mut d, 800);
                 return Ok(json!({"rejected": "type", "variant": v, "detail": d}));
             }
         }
@@ -77,7 +77,7 @@ pub fn op_schema(job: &J) -> Result<J, String> {
             }
             Ok(Err(e)) => {
                 let mut d = format!("{e:?}");
-                d.truncate(300);
+                crate::util::trunc(&mut d, 300);
                 probes_out.push(json!({"fn": fname, "schema_error": d}));
                 continue;
             }
